@@ -202,7 +202,9 @@ class OutboxRelay(Entity):
 
     def _handle_poll(self, event: Event) -> Generator[float, None, list[Event]]:
         """Process a batch of pending outbox entries."""
-        self._poll_scheduled = False
+        # _poll_scheduled stays set while this cycle is running, so that an
+        # event arriving during the relay latency does not start a second,
+        # overlapping poll loop.
         self._poll_cycles += 1
 
         # Collect pending entries up to batch_size
@@ -210,6 +212,10 @@ class OutboxRelay(Entity):
 
         relay_events: list[Event] = []
         for entry in pending:
+            if entry.relayed:
+                # Relayed by an overlapping cycle (prime_poll() called twice)
+                # while this one was waiting out the relay latency.
+                continue
             entry.relayed = True
             self._entries_relayed += 1
 
@@ -219,24 +225,26 @@ class OutboxRelay(Entity):
             if lag > self._relay_lag_max:
                 self._relay_lag_max = lag
 
-            relay_events.append(
-                Event(
-                    time=self.now,
-                    event_type="outbox_relay",
-                    target=self._downstream,
-                    context={
-                        "metadata": {
-                            "outbox_name": self.name,
-                            "entry_id": entry.entry_id,
-                        },
-                        "payload": entry.payload,
+            relay_event = Event(
+                time=self.now,
+                event_type="outbox_relay",
+                target=self._downstream,
+                context={
+                    "metadata": {
+                        "outbox_name": self.name,
+                        "entry_id": entry.entry_id,
                     },
-                )
+                    "payload": entry.payload,
+                },
             )
 
-            # Simulate relay latency between entries
+            # Simulate relay latency between entries. The entry is handed to
+            # the engine now, together with the wait: kept until the generator
+            # returns it would be stamped in the past and dropped.
             if self._relay_latency > 0:
-                yield self._relay_latency
+                yield self._relay_latency, [relay_event]
+            else:
+                relay_events.append(relay_event)
 
         logger.debug(
             "[%s] Poll cycle: relayed %d entries, %d remaining",
@@ -247,6 +255,7 @@ class OutboxRelay(Entity):
 
         # Reschedule if there are more pending entries or keep polling
         result = relay_events
+        self._poll_scheduled = False
         if self.pending_count > 0 or self._entries_written > 0:
             result.append(self._schedule_poll())
 
